@@ -76,6 +76,7 @@ package rjson
 //@   loop 1 unroll
 //@   ensures -1 <= r && r <= 0xFFFF
 //@   ensures r >= 0 <==> uesc(data, 0)
+//@   ensures [C06] r >= 0 ==> r == hex4(data, 2)
 //
 //@ func unescapeUnicodeChar(s, data) (result, bytesHandled, ok)
 //@   ensures [C19,C20] cap(data) >= len(data) + 4 ==> ghost_alloc == old(ghost_alloc) && cap(result) == cap(data)
@@ -88,6 +89,9 @@ package rjson
 //@   ensures ok ==> (bytesHandled == 6 || bytesHandled == 12) && bytesHandled <= len(s)
 //@   ensures ok ==> len(data) + 1 <= len(result) && len(result) <= len(data) + 4
 //@   ensures forall(j, 0, len(data), result[j] == data[j])
+//@   ensures [C06] ok ==> (bytesHandled == 12 <==> escpair(s, 0))
+//@   ensures [C06] ok ==> len(result) == len(data) + utf8len(escrune(s, 0))
+//@   ensures [C06] ok ==> forall(j, 0, utf8len(escrune(s, 0)), result[len(data)+j] == utf8b(escrune(s, 0), j))
 // ---------------------------------------------------------------- generated machines (safety layer)
 //@ func skipValue(data, stack) (p, stack1, err)
 //@   candidates @alloc top <= p + 1
